@@ -86,7 +86,7 @@ def _fut():
             stub_components=STUB_POOL,
             required_probes=["family_future", "family_pool", "callback_on_pooled_future_invoked",
                              "set_callback_overlapped_completion", "callback_registered_after_completion",
-                             "callback_registered_before_completion", "raising_callback_invoked",
+                             "callback_registered_before_completion", "raising_callback_invoked", "callback_registered_from_callback", "same_callable_registered_twice_before_completion",
                              "result_timeout", "result_waited_for_completion", "done_false_seen"])
 
     return run
@@ -170,7 +170,7 @@ def _c12():
             lambda: syscheck.C12Scenario(tier), "system-c12", "C12", "C12", tier, seed, budget_s, jobs,
             level="exploration", rule=RULE_SYS, assumptions=ASSUME_SYS,
             real_components=REAL_SYS, stub_components=STUB_SYS,
-            required_probes=["lifecycle_serve", "lifecycle_never-served", "lifecycle_shutdown-inflight", "lifecycle_handle-loop", "lifecycle_serve-twice", "lifecycle_close-while-serving",
+            required_probes=["lifecycle_serve", "lifecycle_never-served", "lifecycle_shutdown-inflight", "lifecycle_handle-loop", "lifecycle_serve-twice", "lifecycle_close-while-serving", "lifecycle_stop-rpc",
                              "server_plain", "server_pooled", "server_pooled-user", "family_unix", "family_tcp",
                              "two_methods_executing_at_once", "shutdown_with_request_in_flight", "invalid_body_sent",
                              "client_died_mid_body", "client_aborted_connection", "request_without_length", "shared_request_and_notification_pool",
